@@ -406,6 +406,15 @@ func (store *KeyStore) WriteKeyFile(filename string, data []byte, mode os.FileMo
 	if err != nil {
 		return err
 	}
+	// Do not leave the temporary file behind if we fail before it has been renamed into place.
+	renamed := false
+	defer func() {
+		if !renamed {
+			if err := store.fs.Remove(tmpFilename); err != nil && !os.IsNotExist(err) {
+				log.WithError(err).WithField("path", tmpFilename).Warn("Failed to remove temporary key file")
+			}
+		}
+	}()
 	err = store.fs.WriteFile(tmpFilename, data, mode)
 	if err != nil {
 		return err
@@ -418,6 +427,7 @@ func (store *KeyStore) WriteKeyFile(filename string, data []byte, mode os.FileMo
 	if err != nil {
 		return err
 	}
+	renamed = true
 	// The set of files holding versions of this key has changed (new backup, or a current file
 	// where there was none): drop the cached list, otherwise a warm handle keeps using the old one
 	// and stops offering the key that has just been rotated.
@@ -814,6 +824,13 @@ func (store *KeyStore) describeDir(dirName string) ([]keystore.KeyDescription, e
 		}
 
 		description, err := DescribeKeyFile(fileInfo.Name())
+		if err == ErrUnrecognizedKeyPurpose {
+			// Not a key file we know: most likely a temporary file "<key file><random number>" that
+			// WriteKeyFile could not remove because the process died. It must not make listing of
+			// the keys (and cache warm-up on start, which lists them) fail.
+			log.WithField("file", fileInfo.Name()).Warn("Ignoring unrecognized file in key directory")
+			continue
+		}
 		if err != nil {
 			return nil, err
 		}
